@@ -148,7 +148,8 @@ prop('C19',
               'frames of the ownership analysis are syntactic: captured variables and the pointers held in them, not what is reachable beyond'],
      not_decided='the round trip itself (archive codecs archive/zip, archive/tar, compress/* are outside /repo); the on-disk state after a kill at an arbitrary point (no crash model in this family: what is proved is that the resume file only ever names an index below which every entry completed); symlink targets, modes')
 
-DIFFPIPE = [('/pwr', '(*DiffContext).WritePatch'), ('/pwr', 'CompressWire'), ('/ctxcopy', 'DoBuffer')]
+REDIFF = [('/pwr/rediff', '(*context).analyzePatch')]
+DIFFPIPE = [('/pwr', '(*DiffContext).WritePatch'), ('/pwr', 'CompressWire'), ('/ctxcopy', 'DoBuffer')] + REDIFF
 
 prop('C15',
      functions=DIFFPIPE,
@@ -156,6 +157,9 @@ prop('C15',
               'wsync.Context methods only touch their own receiver and what they are handed (their contracts: modifies of ComputeDiff / CreateSignature)',
               'io.Pipe / multiread deliver the same byte sequence to both readers (outside the verified text)'],
      not_decided='byte-for-byte determinism of the patch as one statement (it follows from: each consumer is a deterministic function of the byte sequence it reads -- sequential code, proved separately under C11/C04 -- and no state is shared between the tasks, which is what is proved here); the race detector\'s view of library internals (io.Pipe, sync.Pool); GOMAXPROCS; the bsdiff scanner goroutines (see C12)')
+
+PROPERTIES['C10']['functions'] += REDIFF
+PROPERTIES['C07']['functions'] += REDIFF
 
 # properties with a registered check
 CLAIMED = {'C15', 'C19', 'C18', 'C04', 'C09', 'C17', 'C11', 'C08', 'C01', 'C10', 'C12', 'C07', 'C14', 'C13', 'C05', 'C16', 'C06'}
